@@ -207,8 +207,8 @@ def r14_2(ctx: Ctx):
         n += 1
         ok, why = _ctor_seed_ok(ctx, f, cs.node)
         obs.append(ctx.ob("R14.2", f, cs.node, status=OK if ok else VIOLATION, detail=f"{e[1].split('.')[-1]} seeded from random_seed" if ok else f"{e[1].split('.')[-1]} is constructed {why}"))
-    if n < 5:
-        raise AnalysisError(f"only {n} generator constructors found (5 confirmed by hand: 3 cma, LHS, Sobol)")
+    if n < 3:
+        raise AnalysisError(f"only {n} generator constructors found (3 cma call sites, LHS, Sobol on the pinned tree)")
     return obs
 
 
@@ -271,8 +271,32 @@ def r14_3(ctx: Ctx):
         obs.append(ctx.ob("R14.3", f, f.node, detail="both global streams are seeded before the root deme is built on every seed-present path", construct="order"))
     # stored seed
     st = [n for n in body_walk(f.node) if isinstance(n, ast.Assign) and any(is_self_attr(t, "_random_seed", f.self_name()) for t in n.targets)]
-    ok = bool(st) and all((isinstance(n.value, ast.Constant) and n.value.value is None) or (isinstance(n.value, ast.Subscript) and isinstance(n.value.slice, ast.Constant) and n.value.slice.value == "random_seed") for n in st)
-    obs.append(ctx.ob("R14.3", f, st[0] if st else f.node, status=OK if ok else VIOLATION, detail="tree keeps options['random_seed'] (or None)" if ok else "the tree's stored random seed is not options['random_seed']", construct="stored-seed"))
+    def seed_value(e):
+        """'ok' = None or options['random_seed'] / options.get('random_seed'[, None]) (arms of a conditional: each), 'bad' = a constant / arithmetic on it, else 'unknown'"""
+        if isinstance(e, ast.IfExp):
+            rs = [seed_value(e.body), seed_value(e.orelse)]
+            return "bad" if "bad" in rs else "unknown" if "unknown" in rs else "ok"
+        if isinstance(e, ast.BoolOp):
+            rs = [seed_value(v) for v in e.values]
+            return "bad" if "bad" in rs else "unknown" if "unknown" in rs else "ok"
+        if isinstance(e, ast.Constant):
+            return "ok" if e.value is None else "bad"
+        if isinstance(e, ast.Subscript) and isinstance(e.slice, ast.Constant) and e.slice.value == "random_seed":
+            return "ok"
+        if isinstance(e, ast.Call) and isinstance(e.func, ast.Attribute) and e.func.attr == "get" and e.args and isinstance(e.args[0], ast.Constant) and e.args[0].value == "random_seed" and (len(e.args) == 1 or (isinstance(e.args[1], ast.Constant) and e.args[1].value is None)):
+            return "ok"
+        if isinstance(e, ast.BinOp) and "random_seed" in norm(e):
+            return "bad"
+        return "unknown"
+
+    import copy
+
+    from ..core import _Subst
+
+    fdefs = local_defs(f)
+    vals = [seed_value(_Subst(fdefs, 3).visit(copy.deepcopy(n.value))) for n in st]
+    ok = bool(st) and all(v == "ok" for v in vals)
+    obs.append(ctx.ob("R14.3", f, st[0] if st else f.node, status=OK if ok else VIOLATION if (not st or "bad" in vals) else INCONCLUSIVE, detail="tree keeps options['random_seed'] (or None)" if ok else "the tree's stored random seed is not options['random_seed']", construct="stored-seed"))
     # reseeding elsewhere
     for g, cs, e in _classified_sites(ctx):
         if e[0] == "SEED" and g is not f:
@@ -385,7 +409,7 @@ def r14_7(ctx: Ctx):
 
 RULES = [
     ("R14.1", r14_1, 30),
-    ("R14.2", r14_2, 5),
+    ("R14.2", r14_2, 3),
     ("R14.3", r14_3, 4),
     ("R14.4", r14_4, 3),
     ("R14.5", r14_5, 4),
